@@ -231,16 +231,22 @@ class Group:
         self.determinants[type_].append(Determinant(new_determinant.group,
                                                     new_determinant.value))
 
-    def remove_determinants(self, labels):
-        """Remove all determinants with specified labels.
+    def remove_determinants(self, groups):
+        """Remove all determinants that stem from the specified groups.
+
+        A determinant is matched by the label and the residue number of its
+        group: the label alone does not identify a group, because ligand
+        labels carry no residue number and two copies of a ligand in one
+        chain share them.
 
         Args:
-            labels:  list of labels to remove
+            groups:  list of groups whose determinants are removed
         """
+        keys = {(group.label, group.atom.res_num) for group in groups}
         for type_ in ['sidechain', 'backbone', 'coulomb']:
             matches = list(
-                filter(lambda d: d.label
-                       in labels, [d for d in self.determinants[type_]]))
+                filter(lambda d: (d.label, d.group.atom.res_num)
+                       in keys, [d for d in self.determinants[type_]]))
             for match in matches:
                 self.determinants[type_].remove(match)
 
